@@ -75,7 +75,23 @@ def restart_once(problem, cfg, ck, maxiter, **kw):
     return Act(problem, c, checkpoint=ck, **kw).run()
 
 
-def compare_restart(problem, cfg, blob, x_ref, maxiter, pseed, stats, n_pert=3):
+def garbage_direction(act, x_scale):
+    """DESIGN 7.4: a search direction more than 1e6 times larger than the iterate itself means
+    the quadratic model is numerically singular along it; what the line search then does is
+    decided by the last bits (the comparison up to rounding is meaningless there)."""
+    for t in act.ls_log:
+        dn = t[3]
+        if not np.isfinite(dn) or dn > 1e6 * max(1.0, x_scale):
+            return True
+    return False
+
+
+def garbage_direction_last(act, x_scale):
+    dn = act.ls_log[-1][3]
+    return (not np.isfinite(dn)) or dn > 1e6 * max(1.0, x_scale)
+
+
+def compare_restart(problem, cfg, blob, x_ref, maxiter, pseed, stats, n_pert=3, ref_act=None):
     """DESIGN 7.2: is the restart as close to the reference as rounding allows?
 
     Returns (verdict, info): verdict in {"ok", "vacuous", "fail", "raised"}.
@@ -86,6 +102,10 @@ def compare_restart(problem, cfg, blob, x_ref, maxiter, pseed, stats, n_pert=3):
     if act.result is None:
         return "raised", {"exception": repr(act.exc)[:300]}, act
     x = np.asarray(act.result.x, dtype=float)
+    xs_scale = float(np.max(np.abs(x_ref))) if x_ref.size and np.all(np.isfinite(x_ref)) else 1.0
+    if garbage_direction(act, xs_scale) or (ref_act is not None and ref_act.ls_log and garbage_direction_last(ref_act, xs_scale)):
+        stats["nj.garbage_direction"] += 1
+        return "vacuous", {"reason": "search direction > 1e6 x iterate scale"}, act
     if x.shape != x_ref.shape:
         return "fail", {"shape": list(x.shape)}, act
     d = float(np.max(np.abs(x - x_ref))) if x.size else 0.0
